@@ -822,7 +822,8 @@ def run(ctx):
         ctx.coqchk(["LV.Invoice.Props"])
     # coverage
     hist = {"event": {}, "reply": {}, "ntf": {}, "invoice_kind": {}, "backend": {}, "kind": {},
-            "amp_case_kinds": {}, "stored_chan_id_class": {}, "stored_htlc_id_class": {}}
+            "amp_case_kinds": {}, "stored_chan_id_class": {}, "stored_htlc_id_class": {},
+            "entry_point_on_state_mix": {}}
 
     def bump(h, k):
         hist[h][k] = hist[h].get(k, 0) + 1
@@ -857,6 +858,23 @@ def run(ctx):
         for ch, hi in seen.values():
             bump("stored_chan_id_class", c["backend"] + ":" + mag(ch))
             bump("stored_htlc_id_class", c["backend"] + ":" + mag(hi))
+    # which mixtures of htlc states the map of some invoice held when an entry point
+    # actually changed / answered from it: "<event>:<reply class>@<states present before>"
+    hist["entry_point_on_state_mix"] = {}
+    for c in rows:
+        prevs = {}
+        for o in c["ops"]:
+            ev, r = o["ev"], o["reply"]
+            cls = r[0] if r[0] in ("nil", "err") else (r[4] if r[0] == "settle" else r[3] if r[0] == "fail" else r[1])
+            for hid, sn in prevs.items():
+                now = next((x for x in o["snap"] if x["hash"] == hid), None)
+                touched = now is not None and now != sn
+                if ev[0] == "notify":
+                    touched = touched or any(h["key"] == ev[1]["key"] for h in sn["htlcs"])
+                if touched and sn["htlcs"]:
+                    mix = "".join(sorted({h["state"][0] for h in sn["htlcs"]}))
+                    bump("entry_point_on_state_mix", "%s:%s@%s" % (ev[0], cls, mix))
+            prevs = {x["hash"]: x for x in o["snap"]}
     hist["amp_case_kinds"] = {}
     for c in rows:
         for k in amp_kinds(c):
